@@ -2,7 +2,8 @@
 // (DESIGN.md §6 C15). Engine E with the real file system as observed state:
 // every entry name from a segment alphabet against pre-populated directories
 // (txtar.Write in-process and the txtar-x binary), and every small tree through
-// the freshly built txtar-c and txtar-x binaries.
+// the freshly built txtar-c and txtar-x binaries. Engine S (conc.go): every
+// interleaving of the file operations of 2-3 concurrent Write calls.
 package main
 
 import (
@@ -369,6 +370,7 @@ type kase struct {
 	Kind    string       `json:"kind"`
 	Contain *containCase `json:"contain,omitempty"`
 	RT      *rtCase      `json:"roundtrip,omitempty"`
+	Conc    *concCase    `json:"concurrent,omitempty"`
 }
 
 func violClass(v string) string {
@@ -399,6 +401,9 @@ func main() {
 			kit.Harness("bad case: %v", err)
 		}
 		d := filepath.Join(root, fmt.Sprintf("replay%d", atomic.AddInt64(&rseq, 1)))
+		if c.Kind == "concurrent" {
+			return replayConc(d, c.Conc)
+		}
 		if c.Kind == "contain" {
 			if v := checkContain(d, *c.Contain); v != "" {
 				return []kit.V{{Key: fmt.Sprintf("%s names=%q pre=%q viaX=%v nodir=%v", violClass(v), c.Contain.Names, c.Contain.Pre, c.Contain.ViaX, c.Contain.NoDir), What: v, Case: c}}
@@ -566,12 +571,23 @@ func main() {
 		atomic.AddInt64(&rtDone, 1)
 	})
 	r.Sample(map[string]any{"tree": rts[len(rts)/3].String()})
+	// ----- concurrent writers -----
+	cst := &concStats{Outcomes: map[string]bool{}}
+	exploreConc(r, filepath.Join(root, "conc"), cst)
+	var couts []string
+	for o := range cst.Outcomes {
+		couts = append(couts, o)
+	}
+	sort.Strings(couts)
+	r.Set("concurrent_writer_schedules", cst.Executions)
+	r.Set("concurrent_writer_steps", cst.Steps)
+	r.Set("concurrent_writer_outcomes", couts)
 	var pn []string
 	pn = append(pn, paths...)
 	sort.Strings(pn)
 	r.Set("evaluations", done+rtDone)
 	r.Set("distinct_nontrivial", outside+atomic.LoadInt64(&st.quoted)+atomic.LoadInt64(&st.archived))
-	r.Set("rule", "containment: every entry name of <= 4 segments over {a,b,.,..,empty} with and without leading / trailing slash, plus specials, alone (x 3 pre-populated directories), 10 names x 7 pre-existing symbolic links called a (to directories outside and inside, to a file outside, dangling, to '..' and '.') and paired with 6 second entries in both orders, in-process and through the txtar-x binary; round trip: every tree of <= 2 (thorough 3) files over 10 paths x 9 contents x 4 flag sets through the built txtar-c and txtar-x, the directory argument spelled d, absolute, '.', './', 'd/', './d' or '../w/d' in rotation. non-trivial = containment cases with an escaping name + files actually archived and compared + files restored through Unquote (counted)")
+	r.Set("rule", "containment: every entry name of <= 4 segments over {a,b,.,..,empty} with and without leading / trailing slash, plus specials, alone (x 3 pre-populated directories), 10 names x 7 pre-existing symbolic links called a (to directories outside and inside, to a file outside, dangling, to '..' and '.') and paired with 6 second entries in both orders, in-process and through the txtar-x binary; round trip: every tree of <= 2 (thorough 3) files over 10 paths x 9 contents x 4 flag sets through the built txtar-c and txtar-x, the directory argument spelled d, absolute, '.', './', 'd/', './d' or '../w/d' in rotation; concurrent writers: every interleaving (three writers: preemption bound 2, thorough 3) of the file operations of 2-3 Write calls into one directory over 8 scenarios (same name, other spelling, new subdirectory, crossed pairs, pre-existing file), judged at the end. non-trivial = containment cases with an escaping name + files actually archived and compared + files restored through Unquote (counted)")
 	r.Set("containment_cases", done)
 	r.Set("containment_cases_with_escaping_name", outside)
 	r.Set("containment_cases_via_txtar_x", viaX)
@@ -579,7 +595,7 @@ func main() {
 	r.Set("roundtrip_files_archived_and_compared", st.archived)
 	r.Set("roundtrip_files_restored_through_unquote", st.quoted)
 	r.Set("roundtrip_files_legitimately_skipped", st.skipped)
-	r.Set("exhaustive", !r.Capped())
+	r.Set("exhaustive", !r.Capped() && !cst.Capped)
 	r.Assume("the sandbox is 6 directory levels deep so that every '..' chain of the alphabet stays inside the snapshot; file names with leading/trailing blanks or newlines are not generated for the round trip (the format trims them)")
 	r.Finish()
 }
